@@ -33,6 +33,7 @@ VC11(e) == LET d == Docs[e.di] IN
        ELSE IF e.nsteps = 0 /\ out = d THEN "ok"
        ELSE IF abm.ok /\ MiddleOK(abm.M, payload) /\ (e.op \in Deletions => TextOf(abm.M) = <<>>) THEN "ok"
        ELSE IF RelaxedOK(d, e.from, e.to, out, payload) THEN "ok"
+       ELSE IF ExactPadded(d, e.from, e.to, out, payload, e.op \in Deletions) THEN "ok"
        ELSE IF ~abm.ok THEN "bad:SurroundingContentChanged"
        ELSE IF e.op \in Deletions /\ TextOf(abm.M) # <<>> THEN "bad:DeletionAddedText"
        ELSE "bad:ContentInventedOrReordered"
